@@ -23,6 +23,8 @@ type c03Case struct {
 	// URL, was sent to the provider and never went there | "abandoned-login-x2" twice | "logged-out" completed a login
 	// for another URL and logged out
 	Before string `json:"before,omitempty"`
+	// Debug: driven with log_level all:debug
+	Debug bool `json:"debug_logging,omitempty"`
 }
 
 var c03Targets = []string{"/", "/a%20b/c%2Fd?x=1&y=%2F", "/a/b", "/p?next=https%3A%2F%2Fe.com%2F%3Fa%3Db", "/s;v=1/@:,", "/docs/100%25/r%C3%A9sum%C3%A9.pdf", "/a?x=1&y=%2F"}
@@ -63,6 +65,9 @@ func c03Specs() []world.Spec {
 
 // c03Flow drives one redirect-following browser; returns ("", steps) or (signature+"\x00"+message, steps).
 func c03Flow(c c03Case) (string, int) {
+	if c.Debug {
+		world.EnableDebugLogging()
+	}
 	w := world.New(c.Spec)
 	defer w.Close()
 	steps := 0
@@ -282,7 +287,7 @@ func c03Shape(c c03Case) string {
 }
 
 func c03Run(run *ev.Run) {
-	run.Rule = "full product of compliant provider answer shapes (expires_in, refresh token, aud string/array, token_type capitalisation, extra members) x filter configurations (forwarding, cookie prefix, logout, scopes, memory/Redis) x originally requested targets, each driven as a redirect-following browser through the real handler and simulated provider, followed by a tail of requests inside token lifetime; class = (answer shape, config) of completed flows"
+	run.Rule = "full product of compliant provider answer shapes (expires_in, refresh token, aud string/array, token_type capitalisation, extra members) x filter configurations (forwarding, cookie prefix, logout, scopes, memory/Redis) x originally requested targets, each driven as a redirect-following browser through the real handler and simulated provider, followed by a tail of requests inside token lifetime; plus compliant answers of uncommon size (ID token with 600 groups) and a last pass with log_level all:debug over all configurations; class = (answer shape, config) of completed flows"
 	run.Assumptions = []string{
 		"handler-level flows (Process on per-check handlers) for the full product; a server-level part drives the assembled service (real loader, store factory, Check, trigger rules) for a subset (all answer shapes in thorough)",
 		"token lifetime 60 s virtual; tail advances stay strictly inside it",
@@ -434,6 +439,42 @@ func c03Run(run *ev.Run) {
 			}
 		}
 	}
+	// compliant answers of uncommon size (an ID token with 600 groups: a token answer of about 20 KiB), then every
+	// configuration once more with log_level all:debug (set up as cmd/main.go does): what runs only at debug level -
+	// the logging round tripper around every provider request, the formatting of logged values - must not change a flow
+	big := []world.Answer{{Name: "groups=600", Groups: 600}, {Name: "groups=600,no-refresh,aud_array", Groups: 600, NoRefresh: true, AudArray: true}}
+	var bigN, dbg int64
+	flowsOf := func(as []world.Answer, tag string, n *int64) {
+		for _, spec := range specs {
+			for _, a := range as {
+				c := c03Case{Answer: a, Spec: spec, Target: targets[0], Tail: tail[:1], Debug: tag == "log=debug"}
+				res, k := c03Flow(c)
+				*n++
+				steps += int64(k)
+				if res != "" {
+					sig, msg, _ := strings.Cut(res, "\x00")
+					run.Violation("C03 "+sig+" "+tag, msg, c)
+				} else {
+					run.Class(fmt.Sprintf("%s|%s|store=%s", tag, a.Name, spec.Store))
+				}
+			}
+		}
+	}
+	flowsOf(big, "big-answer", &bigN)
+	world.EnableDebugLogging()
+	flowsOf(append([]world.Answer{answers[0], answers[len(answers)/2], answers[len(answers)-1]}, big...), "log=debug", &dbg)
+	for _, a := range append([]world.Answer{answers[0]}, big...) {
+		srv++
+		steps += 6
+		if msg := c03ServerFlow(a, true, "app1", "include-all", "/app?x=1&y=%2F"); msg != "" {
+			run.Violation("C03 server-level-flow-does-not-complete log=debug "+a.Name, msg, map[string]any{"level": "server", "answer": a, "forward": true, "rules": "include-all", "target": "/app?x=1&y=%2F", "log": "debug"})
+		} else {
+			run.Class("server|log=debug|" + a.Name)
+		}
+	}
+	evals += bigN + dbg
+	run.Extra["flows_with_big_answers"] = bigN
+	run.Extra["flows_with_debug_logging"] = dbg
 	run.Evals, run.States, run.Transitions, run.Traces = evals+srv, evals+srv, steps, evals+srv
 	run.Extra["flows"] = total
 	run.Extra["server_level_flows"] = srv
